@@ -5,8 +5,9 @@
    every eviction oracle (the `ev` carried by each datagram input).  The only hypothesis on the inputs,
    wf_input, is that a client datagram never carries the empty address (ParseUDPMessage rejects it). *)
 (* the C09 names first: where both models use a name (run, step, ...) the session model's wins below *)
+From Hy Require Import model.C05_Frag.
 From Hy Require Import model.C09_ACL proof.C09_ACL model.C08_Adapter proof.C08_Adapter.
-From Hy Require Import model.C08_UDPPolicy proof.C08_UDPPolicy.
+From Hy Require Import model.C08_UDPPolicy proof.C08_UDPPolicy model.C08_Feed proof.C08_Feed proof.C08_FeedC05.
 From Coq Require Import NArith List.
 Import ListNotations.
 
@@ -93,6 +94,104 @@ Theorem C08_old_refuted :
     In (OFwd N x) (map (o_out N) (snd (run_old N N.eqb 0%N P hook None ins))).
 Proof. exact old_refuted. Qed.
 Print Assumptions C08_old_refuted.
+
+(* ---- second layer (model/C08_Feed.v): the whole of udpSessionEntry.Feed - the Defragger in front of the tail, the
+   result of conn.WriteTo, entries without a socket.  A client message is (PacketID, FragID, FragCount, Addr); the
+   fragments of one datagram may carry DIFFERENT addresses, arrive in any order, be duplicated, be abandoned for another
+   packet id; any Feed may be told that its WriteTo fails.  [written o] = the addresses handed to conn.WriteTo by that
+   Feed, successful or not. ---- *)
+
+(* Nothing is ever handed to WriteTo for a destination the policy rejects, whatever the history. *)
+Theorem C08_frag_denied_never_written :
+  forall (addr : Type) (aeqb : addr -> addr -> bool), (forall a b, aeqb a b = true <-> a = b) ->
+  forall (empty : addr) (P : addr -> bool) (hook : addr -> hookres addr) ins fs os x,
+  Forall (fwf addr empty) ins ->
+  frun addr aeqb empty P hook None ins = (fs, os) ->
+  P x = false -> forall o, In o os -> ~ In x (written addr o).
+Proof. exact feed_denied_never_written. Qed.
+Print Assumptions C08_frag_denied_never_written.
+
+(* In every reachable state, for every message m: the address given to checkAddr IS the address given to WriteTo
+   (c = x), it is the address of the message that completed the datagram (the last arrived fragment), the policy allows
+   it; a dropped datagram was dropped for that same address; in an overridden session (chk = None) CheckUDP is not
+   consulted; and an injected write error shows up as ok = false of that ONE WriteTo - no second write. *)
+Theorem C08_feed_check_is_write :
+  forall (addr : Type) (aeqb : addr -> addr -> bool), (forall a b, aeqb a b = true <-> a = b) ->
+  forall (empty : addr) (P : addr -> bool) (hook : addr -> hookres addr) ins fs os m fault ev werr fs' o,
+  Forall (fwf addr empty) ins ->
+  frun addr aeqb empty P hook None ins = (fs, os) -> u_addr _ m <> empty ->
+  fstep addr aeqb empty P hook fs (FMsg _ m fault ev werr) = (fs', o) ->
+  match fo_out _ o with
+  | FWrite _ (Some c) x ok => c = x /\ x = u_addr _ m /\ P x = true /\ ok = negb werr
+  | FWrite _ None x ok => P x = true /\ ok = negb werr /\ fo_consulted _ o = false
+  | FDrop _ c => c = u_addr _ m /\ P c = false
+  | FRep _ _ => False
+  | _ => True
+  end.
+Proof. exact feed_check_is_write. Qed.
+Print Assumptions C08_feed_check_is_write.
+
+(* A failing WriteTo changes nothing but the reported result: same session state as with a successful one. *)
+Theorem C08_feed_write_error_only_reported :
+  forall (addr : Type) (aeqb : addr -> addr -> bool) (empty : addr) (P : addr -> bool) (hook : addr -> hookres addr)
+         fs m fault ev,
+  fst (fstep addr aeqb empty P hook fs (FMsg _ m fault ev true)) =
+  fst (fstep addr aeqb empty P hook fs (FMsg _ m fault ev false)).
+Proof. exact fstep_werr_state. Qed.
+Print Assumptions C08_feed_write_error_only_reported.
+
+(* Overridden session (the hook rewrote the first destination a to a'): until it is closed, whatever arrives - fragments
+   with any addresses, in any order, with or without write errors - every Feed either calls nothing or calls
+   WriteTo(a') exactly once (ok = the injected result), never consults CheckUDP, never dials; replies come from a. *)
+Theorem C08_feed_override :
+  forall (addr : Type) (aeqb : addr -> addr -> bool), (forall a b, aeqb a b = true <-> a = b) ->
+  forall (empty : addr) (P : addr -> bool) (hook : addr -> hookres addr) m ev werr a' rest fs os,
+  N.leb (u_cnt _ m) 1 = true ->
+  hook (u_addr _ m) = HRewrite a' -> u_addr _ m <> a' -> u_addr _ m <> empty -> P a' = true ->
+  forallb (fun i => negb (is_fclose addr i)) rest = true ->
+  frun addr aeqb empty P hook None (FMsg _ m false ev werr :: rest) = (fs, os) ->
+  exists o os', os = o :: os' /\
+    fo_out _ o = FWrite _ None a' (negb werr) /\ fo_dialed _ o = Some a' /\ fo_consulted _ o = false /\
+    Forall2 (ov_post addr (u_addr _ m) a') rest os'.
+Proof. exact feed_override. Qed.
+Print Assumptions C08_feed_override.
+
+(* The first layer (all theorems above it) is this layer restricted to complete messages and successful writes. *)
+Theorem C08_feed_refines :
+  forall (addr : Type) (aeqb : addr -> addr -> bool) (empty : addr) (P : addr -> bool) (hook : addr -> hookres addr) ins fs os,
+  frun addr aeqb empty P hook None (map (embed addr) ins) = (fs, os) ->
+  run addr aeqb empty P hook None ins = (proj_state addr fs, map (proj_obs addr) os).
+Proof. exact feed_refines. Qed.
+Print Assumptions C08_feed_refines.
+
+(* Composition with C05: the session model's Defragger is the C05 model of frag.Defragger.Feed with payload and
+   session id forgotten (am, ad: proof/C08_FeedC05.v), and the message it hands out carries the address of the
+   message just fed - the LAST arrived fragment. *)
+Theorem C08_defragger_is_C05 : forall d m d' o,
+  C05_Frag.feed d m = Ok (d', o) -> dfeed (list byte) (ad d) (am m) = (ad d', option_map am o).
+Proof. exact dfeed_is_C05_feed. Qed.
+Print Assumptions C08_defragger_is_C05.
+
+Theorem C08_defragger_emits_last_addr : forall d m d' x,
+  C05_Frag.feed d m = Ok (d', Some x) -> C05_Frag.addr x = C05_Frag.addr m.
+Proof. exact C05_feed_emits_last_addr. Qed.
+Print Assumptions C08_defragger_emits_last_addr.
+
+(* Non-vacuity: live plain session, policy rejects 2; a datagram whose head fragment names 2 and whose tail names 1:
+   tail last -> checked and written for 1; head last -> checked for 2 and dropped.  Hooked session: the 2nd WriteTo fails. *)
+Theorem C08_example_fragments :
+  map (fo_out N) (snd (frun N N.eqb 0%N exf_P (fun _ => HKeep) None exf_ins)) =
+  [ FWrite N (Some 1%N) 1%N true; FNone N; FWrite N (Some 1%N) 1%N true; FNone N; FDrop N 2%N ].
+Proof. exact example_fragments. Qed.
+Print Assumptions C08_example_fragments.
+
+Theorem C08_example_hooked_write_error :
+  map (fo_out N) (snd (frun N N.eqb 0%N exf_P (fun _ => HRewrite 1%N) None
+                        [ FMsg N (mkU N 0 0 1 2%N) false 0%N false; FMsg N (mkU N 0 0 1 2%N) false 0%N true;
+                          FMsg N (mkU N 0 0 1 2%N) false 0%N false ])) =
+  [ FWrite N None 1%N true; FWrite N None 1%N false; FWrite N None 1%N true ].
+Proof. exact example_hooked_write_error. Qed.
+Print Assumptions C08_example_hooked_write_error.
 
 (* ---- the policy adapter (extras/outbounds): PluggableOutboundAdapter -> resolver stage -> aclEngine -> outbound.
    The hypothesis of the session theorems above - the dial (UDP) vets a destination with the very policy CheckUDP
